@@ -20,6 +20,7 @@ type World struct {
 	strLits    map[string]string // literal -> const name
 	strOrder   []string
 	fullBytes  map[string]bool // literals whose bytes are all spelled out (replay values)
+	longLits   bool            // spell out the bytes of literals up to 40 characters (contracts with `bytes`)
 	extraDecls []string
 	useStrings bool // String theory instead of uninterpreted Str
 }
@@ -348,7 +349,7 @@ func (w *World) Prelude(body string) string {
 				if usesStrlen {
 					fmt.Fprintf(&b, "(assert (= (strlen %s) %d))\n", c, len(s))
 				}
-				if usesByte && (len(s) <= 4 || w.fullBytes[s]) {
+				if usesByte && (len(s) <= 4 || w.fullBytes[s] || (w.longLits && len(s) <= 40)) {
 					for i := 0; i < len(s); i++ {
 						fmt.Fprintf(&b, "(assert (= (|str.byte| %s %d) %d))\n", c, i, s[i])
 					}
